@@ -36,3 +36,14 @@ print("ok2")
 for i, t in enumerate(["0x_", "0b_", "-0b_", "2001-13-01", "2001-02-30", "0000-01-01", "2001-01-01 10:00:00 +24:00", "2001-01-01 24:00:00", "2001-1-1 1:00:60"]):
     S("C08", "members", "F3-%d" % i, t, "fixed edc269e")
 print("ok3")
+
+# ---- second build session
+S("C02", "scalar", "F14-astral-simple-key", ("\U0001F600" * 110, "key", {}), "fixed aefa98e")
+S("C02", "scalar", "F14-astral-simple-key-nested", ("\U0001F600" * 104, "deep4", {"default_flow_style": True}), "fixed aefa98e")
+_d = lambda root: {"handles": False, "redefine": False, "explicit": False, "root": root}
+S("C01", "docs", "F11-timestamp-value-key", (_d(("eq", "timestamp", ("s", None, False, "x"), False)), False, False), "fixed 850a7f1")
+S("C01", "docs", "F12-recursive-value-chain", (_d(("eq", "str", ("a", 0), True)), False, False), "fixed 8efee00")
+S("C01", "docs", "F12-recursive-value-chain-binary", (_d(("q", None, False, [("eq", "binary", ("eq", "str", ("a", 0), False), True)])), True, True), "fixed 8efee00")
+S("C17", "graphs", "F13-slots-with-empty-dict", (("slotsdict", ("s", 3), []), {}), "fixed 0152072")
+S("C17", "graphs", "F13-slots-with-dict", (("l", [("slotsdict", ("s", 3), [("name", ("s", "x"))]), ("slotsdict", ("l", []), [])]), {}), "fixed 0152072")
+print("ok4")
